@@ -184,8 +184,15 @@ impl Area for RegArea {
         while i < ndef {
             // twins whose descriptors differ only in where a U+00FF sits relative to a field boundary (the separator BYTE 0xff never occurs in UTF-8 text, the CHARACTER does):
             // ids must differ (both admitted), dimension signatures must differ (the second refused)
-            if i + 1 < ndef && rng.chance(10) {
+            if i + 1 < ndef && rng.chance(14) {
                 let name = *rng.pick(NAMES); let kind = *rng.pick(&["counter", "gauge", "intcounter"]);
+                // (third kind of twin) EQUAL descriptors - same name, same three constant labels - built separately, for collectors of different kinds:
+                // the second registration must be refused whatever order the two label maps iterate in
+                if rng.chance(35) { stats.hit("def:twin-equal-identity-other-kind");
+                    let ks = [("k", "1"), ("z", "ab"), ("a", "x")];
+                    for (j, kind) in [*rng.pick(&["counter", "intcounter"]), *rng.pick(&["gauge", "intgauge"])].iter().enumerate() { let mut cs: Vec<(String, String)> = ks.iter().map(|(a, b)| (a.to_string(), b.to_string())).collect(); rng.shuffle(&mut cs);
+                        lines.push(format!("reg def c{} kind={} name={} help={} consts={} vars=- val={}", i + j, kind, hex(name), hex("h"), pairs_str(&cs), f64_hex((j + 1) as f64))); }
+                    i += 2; continue; }
                 let (h0, c0, h1, c1): (&str, Vec<(&str, &str)>, &str, Vec<(&str, &str)>) = if rng.chance(50) { stats.hit("def:twin-id-boundary"); ("h", vec![("k", "1\u{ff}x"), ("z", "ab")], "h", vec![("k", "1"), ("z", "x\u{ff}ab")]) }
                     else { stats.hit("def:twin-dim-boundary"); ("h", vec![("a", "x")], "h\u{ff}a", vec![]) };
                 for (j, (h, c)) in [(h0, c0), (h1, c1)].iter().enumerate() { let mut cs: Vec<(String, String)> = c.iter().map(|(a, b)| (a.to_string(), b.to_string())).collect(); rng.shuffle(&mut cs);
